@@ -72,8 +72,18 @@ type dbHarness struct {
 	bgErrors []string
 	stat     map[string]int64
 
+	snaps   map[int]*snapObj
+	iters   map[int]*iterObj
+	batches map[int]*batchObj
+
+	nCkpt       int
+	fmvFloor    int // the version may never be observed below this ...
+	fmvFloorIdx int // ... in crash images at or after this disk index
+	levelsEach  bool
+	closeEach   bool
+
 	// crash machinery
-	durs       []durPoint
+	durs      []durPoint
 	known5_1   bool
 	forkMode   string // "", "sample", "all"
 	forkN      int
@@ -104,6 +114,8 @@ func (e *dbEngine) Execute(t *testing.T, plan *Plan, res *Result) {
 	g.keyspace()
 	h.pfx, h.sfx = g.pfx, g.sfx
 	h.forkMode, h.forkN = forkPolicy(plan.Profile, plan.Tier)
+	h.levelsEach = plan.Profile == "levels"
+	h.closeEach = plan.Profile == "close"
 	start := time.Now()
 	r := h.sim.Run(&simrt.Inc{ID: 0}, h.root)
 	res.Stats["fake_ns"] = int64(time.Since(start))
@@ -247,6 +259,12 @@ func (h *dbHarness) makeOptionsOn(disk *simfs.Disk) *pebble.Options {
 	if !c.DeletePacing {
 		o.DeletionPacing.BaselineRate = nil
 	}
+	if c.BlockPropCollector {
+		o.BlockPropertyCollectors = []func() pebble.BlockPropertyCollector{sstable.NewTestKeysBlockPropertyCollector}
+	}
+	if h.levelsEach {
+		o.DebugCheck = pebble.DebugCheckLevels
+	}
 	disk.ShuffleList = c.ShuffleList
 	o.EventListener = h.listener()
 	return o
@@ -298,6 +316,7 @@ func (h *dbHarness) root() {
 	}
 	for {
 		h.segment++
+		h.snaps, h.iters, h.batches = map[int]*snapObj{}, map[int]*iterObj{}, map[int]*batchObj{}
 		inc := &simrt.Inc{ID: h.segment}
 		h.inc = inc
 		h.driverDone = false
@@ -370,6 +389,9 @@ func (h *dbHarness) drive() {
 		op := &h.ops[h.pc]
 		h.pc++
 		h.exec(op)
+		if h.levelsEach && h.db != nil {
+			h.checkLevels("after " + op.K)
+		}
 		simrt.Progress()
 	}
 	h.closeDB()
@@ -398,10 +420,14 @@ func (h *dbHarness) closeDB() {
 	if h.db == nil {
 		return
 	}
+	h.closeAllReaders()
 	if err := h.db.Close(); err != nil {
 		h.opErr("close", err)
 	}
 	h.db = nil
+	if h.closeEach {
+		h.checkClosed("after Close")
+	}
 }
 
 // opErr handles an error returned by a DB operation. In a run without
@@ -461,6 +487,23 @@ func (h *dbHarness) exec(op *DBOp) {
 		}
 		h.db = db
 		h.checkScan(h.model.Len())
+	case "snap", "snapclose", "snapget", "snapscan":
+		h.execSnap(op)
+	case "iter", "iterclose", "iterclone", "iterop":
+		h.execIter(op)
+	case "ibatch", "ibatchop", "ibatchget", "ibatchiter", "ibatchcommit", "ibatchclose":
+		h.execIBatch(op)
+	case "efos", "efoswait":
+		h.execEFOS(op)
+	case "ratchet":
+		h.execRatchet(op)
+	case "checkpoint":
+		h.execCheckpoint(op)
+	case "scaninternal":
+		h.execScanInternal(op)
+	case "metrics":
+		m := h.db.Metrics()
+		_ = m.String()
 	case "wait":
 		simrt.Sleep(time.Duration(op.N) * time.Millisecond)
 	default:
@@ -762,6 +805,9 @@ func (h *dbHarness) execIngest(op *DBOp) {
 	}
 	gi.sync = true
 	h.commitModel(gi)
+	if kind == "ingestexcise" {
+		h.noteExcise(op.Key, op.End)
+	}
 	h.checkTouched(gi)
 }
 
@@ -777,6 +823,7 @@ func (h *dbHarness) execExcise(op *DBOp) {
 	}
 	gi.sync = true
 	h.commitModel(gi)
+	h.noteExcise(op.Key, op.End)
 	h.checkTouched(gi)
 }
 
